@@ -140,6 +140,13 @@ HAND_DOCS = [
       "un": {"allOf": [{"$ref": "#/definitions/Unt"}], "default": "s"}, "uv": {"allOf": [{"$ref": "#/definitions/Unt"}], "default": [1, 2]},
       "u3": {"allOf": [{"$ref": "#/definitions/UntN"}], "default": 300}, "us": {"allOf": [{"$ref": "#/definitions/UntS"}], "default": {"v": [300]}}},
     "definitions": {k: GRID_DEFS[k] for k in ("Ext", "Int", "Adj", "Unt", "UntN", "UntS")}}),
+  # numeric defaults at and beyond the edges of i64 / u64 / 2^53 (valid for their types): reproduced exactly
+  ("number-edges", {"title": "Root", "type": "object", "properties": {
+      "f1": {"type": "number", "default": 1e300}, "f2": {"type": "number", "default": 1e19}, "f3": {"type": "number", "default": -1e19},
+      "f4": {"type": "number", "default": 9007199254740993}, "f5": {"type": "number", "default": 2.5e-7},
+      "u1": {"type": "integer", "format": "uint64", "default": 18446744073709551615}, "u2": {"type": "integer", "format": "uint64", "default": 9223372036854775808},
+      "i1": {"type": "integer", "format": "int64", "default": -9223372036854775808}, "i2": {"type": "integer", "default": 9007199254740993},
+      "a1": {"type": "array", "items": {"type": "number"}, "default": [1e19, 0.5]}, "m1": {"default": {"k": 1e300}}}}),
   # enumerated values that differ in case / separators only (distinct variant identifiers all the same): the default names
   # exactly ONE of them
   ("near-values", {"title": "Root", "type": "object", "properties": {
